@@ -191,15 +191,16 @@ def run(repo, chk):
     chk.ob("R14.3", "selector.dict_resolver.resolve:split", fdr.has("_, module, *hierarchy = x.split('/')", exactly=["x.startswith('/')"]), dr.where, "the resolver splits on '/' into (empty, module, *path)")
     chk.ob("R14.3", "selector.dict_resolver.resolve:main-convention", fdr.mentions("codefind.find_code(*hierarchy, module=module or '__main__')"), dr.where,
            "an empty module means __main__; the path is looked up with find_code(*path, module=...)")
-    ve = repo.func("utils._verify_existence")
+    rs = repo.func("utils.refstring")
+    ve = repo.func("utils._verify_existence") if repo.has_func("utils._verify_existence") else rs      # the existence check may be written inside refstring itself
     chk.ob("R14.3", "utils._verify_existence:same-lookup", facts_of(ve).mentions("codefind.find_code(*path, module=module)"), ve.where,
            "refstring() validates the reference with the same lookup the resolver uses")
     ei = repo.func("utils._extract_info")
     fei = facts_of(ei)
     chk.ob("R14.3", "utils._extract_info:qualname-path", (fei.mentions("qualname.split('.')") or fei.mentions("getattr(fn, '__qualname__', None).split('.')")) and fei.mentions("if p != '<locals>']") and fei.mentions("return (getattr(fn, '__module__', None), *path)"), ei.where,
            "the path is __qualname__ split on '.', without the <locals> markers")
-    rs = repo.func("utils.refstring")
-    chk.ob("R14.3", "utils.refstring:uses-builder-and-verifier", facts_of(rs).mentions("_build_refstring(module, *path)") and facts_of(rs).mentions("_verify_existence(module, *path)") and facts_of(rs).has("module, *path = _extract_info(fn)"),
+    chk.ob("R14.3", "utils.refstring:uses-builder-and-verifier", facts_of(rs).mentions("_build_refstring(module, *path)") and
+           (facts_of(rs).mentions("_verify_existence(module, *path)") or ve is rs) and facts_of(rs).has("module, *path = _extract_info(fn)"),
            rs.where, "refstring() = builder + existence check on the same (module, path)")
     tr = repo.func("transform.transform")
     chk.ob("R14.3", "transform.transform:assimilates-original-code", facts_of(tr).mentions("code_registry.assimilate(fn.__code__, (fn.__code__.co_filename,))"), tr.where,
